@@ -109,6 +109,11 @@ Reuse == {Bin(o, Post(p, A_), A_) : o \in {"+", "-", "*", "==", "<"}, p \in {"++
           Bin("+", Bin("+", Post("++", A_), Post("++", A_)), A_)}
 Multi == {<<Post(p, A_), A_, Post(p, A_), A_>> : p \in {"++", "--"}} \cup {<<Pre("-", A_), A_>>, <<Bin("+", A_, B_), A_, B_>>,
          <<Bin("*", A_, IntL(2)), A_>>, <<Tern(A_, Post("--", A_), A_), A_>>, <<Post("--", Post("--", A_)), A_>>}
+         \* typed arithmetic of literals that look alike: 7 / 2 is an integer division wherever 7.0 / 2.0 stands in the same template
+         \cup {<<Bin(o, FloatL(x, 0), FloatL(y, 0)), Bin(o, IntL(x), IntL(y)), Bin(o, FloatL(x, 0), FloatL(y, 0))>> : o \in {"/", "+", "*", "-", "%", "=="}, x \in {7}, y \in {2}}
+         \cup {<<Bin(o, IntL(x), IntL(y)), Bin(o, FloatL(x, 0), FloatL(y, 0)), Bin(o, IntL(x), IntL(y))>> : o \in {"/", "+", "*", "<"}, x \in {7, 1}, y \in {2}}
+         \cup {<<Bin("+", Bin("*", IntL(2), IntL(3)), Bin("*", FloatL(2, 0), FloatL(3, 0)))>>, <<Bin("*", FloatL(2, 0), FloatL(3, 0)), Bin("+", Bin("*", IntL(2), IntL(3)), Bin("*", FloatL(2, 0), FloatL(3, 0)))>>,
+               <<Bin("/", IntL(7), IntL(2)), Bin("/", Pre("-", IntL(7)), IntL(2)), Bin("/", FloatL(7, 0), IntL(2))>>}
 
 \* ---- token-first families: flat operator sequences, grouped by the specification's own Pratt parser ----
 W(n) == T("word", n)
